@@ -69,6 +69,8 @@ type c20Params struct {
 	fork      bool   // the destination's existing content differs from the source at one index (inconsistent histories)
 	proofMode string // "ok", "bad" (corrupted proof), "err" (HTTP 500)
 	lag       bool   // the destination integrates lazily: its tree size trails the stored prefix
+	unique    bool   // the source holds a different certificate at every index
+	lagN      int    // >0: the signed root is republished only on every (lagN+1)-th request (1000: never during the scenario)
 	errPct    int
 	shortPct  int
 	quotaPct  int // share of AddSequencedLeaves answers that are ResourceExhausted (runs of up to 3)
@@ -83,8 +85,8 @@ func (p *c20Params) String() string {
 	for _, x := range p.growth {
 		g += fmt.Sprintf("+%v:%d", x.at, x.size)
 	}
-	return fmt.Sprintf("%s mode=%s cont=%v cfg=[%d,%d) batch=%d fetchers=%d submitters=%d chan=%d nocheck=%v idfunc=%v size0=%d growth=%s dest0=%d fork=%v proof=%s lag=%v err=%d%% short=%d%% quota=%d%% fatalAt=%d cancel=%v stopAfter=%v loss=%v seed=%d fseed=%d",
-		p.id, p.mode, p.cont, p.cfgStart, p.cfgEnd, p.batch, p.fetchers, p.submit, p.chanSize, p.noCheck, p.idFunc, p.size0, g, p.dest0, p.fork, p.proofMode, p.lag, p.errPct, p.shortPct, p.quotaPct, p.fatalAt, p.cancelAt, p.stopAfter, p.lossAt, p.seed, p.fseed)
+	return fmt.Sprintf("%s mode=%s cont=%v cfg=[%d,%d) batch=%d fetchers=%d submitters=%d chan=%d nocheck=%v idfunc=%v unique=%v size0=%d growth=%s dest0=%d fork=%v proof=%s lag=%v/%d err=%d%% short=%d%% quota=%d%% fatalAt=%d cancel=%v stopAfter=%v loss=%v seed=%d fseed=%d",
+		p.id, p.mode, p.cont, p.cfgStart, p.cfgEnd, p.batch, p.fetchers, p.submit, p.chanSize, p.noCheck, p.idFunc, p.unique, p.size0, g, p.dest0, p.fork, p.proofMode, p.lag, p.lagN, p.errPct, p.shortPct, p.quotaPct, p.fatalAt, p.cancelAt, p.stopAfter, p.lossAt, p.seed, p.fseed)
 }
 
 func c20Hash(a, b, c, d uint64) uint64 {
@@ -106,6 +108,8 @@ type c20World struct {
 	maxSize  int64
 	tree     *testonly.Tree // over the leaf_input of every entry the source will ever publish
 	attempts map[[2]int64]int
+	spin     map[[2]int64]int // requests for this range at one and the same virtual instant
+	spinAt   map[[2]int64]time.Time
 	errRun   map[[2]int64]int
 	sthCalls int
 	maxSTH   int64 // largest tree size served in an STH
@@ -113,12 +117,17 @@ type c20World struct {
 
 	// destination
 	leaves    map[int64]*trillian.LogLeaf
+	byID      map[string]int64 // identity hash -> index holding it (Trillian's LeafData table is keyed by the identity hash)
+	refused   map[int64]string // indices whose leaf the destination refused (per-leaf status) and which are still missing
 	dsize     int64
 	addCalls  int
 	quotaRun  map[[2]int64]int
 	quotaSeen map[[2]int64]bool
-	quotaOpen map[[2]int64]bool // a quota reply for this batch has not been followed by a retry yet
-	disturbed bool              // cancellation, mastership loss or a scripted fatal error happened (a back-off may legitimately be cut short)
+	quotaOpen map[[2]int64]bool      // a quota reply for this batch has not been followed by a retry yet
+	quotaAt   map[[2]int64]time.Time // (virtual) instant of that reply
+	quotaN    map[[2]int64]int       // how many quota replies in a row this batch has had
+	ackedNow  map[int64]bool         // indices stored by an AddSequencedLeaves of this scenario
+	disturbed bool                   // cancellation, mastership loss or a scripted fatal error happened (a back-off may legitimately be cut short)
 	rootCalls int
 
 	// bookkeeping for the oracle
@@ -199,6 +208,9 @@ func (w *c20World) RoundTrip(req *http.Request) (*http.Response, error) {
 			verdict = "bad" // genuine proof, but the destination's root is not a root of this log: it cannot verify
 		}
 		w.out.T(fmt.Sprintf("proof %d %d %s", first, second, verdict), "ok")
+		if verdict == "ok" && first == w.dsize {
+			w.gateClosed = false
+		}
 		return c20JSON(200, ct.GetSTHConsistencyResponse{Consistency: pf}), nil
 
 	case strings.HasSuffix(req.URL.Path, ct.GetEntriesPath):
@@ -213,8 +225,15 @@ func (w *c20World) RoundTrip(req *http.Request) (*http.Response, error) {
 			w.mu.Unlock()
 			return nil, errors.New("verif: scenario aborted")
 		}
-		if att > 400 || w.calls > 60*int(w.maxSize+100) {
-			w.runaway = fmt.Sprintf("get-entries(%d,%d) asked %d times (%d requests in all)", start, end, att+1, w.calls)
+		// a loop that does not advance: the same range requested hundreds of times without the (virtual) clock moving.
+		// (Under election a persistently failing pass is restarted for ever by design; that loop takes time per round.)
+		if now := time.Now(); now.Equal(w.spinAt[key]) {
+			w.spin[key]++
+		} else {
+			w.spin[key], w.spinAt[key] = 0, now
+		}
+		if w.spin[key] > 300 || w.calls > 400*int(w.maxSize+100) {
+			w.runaway = fmt.Sprintf("get-entries(%d,%d) asked %d times at one instant (%d requests in all)", start, end, w.spin[key]+1, w.calls)
 			w.out.T("cancel", "ok")
 			if w.abort != nil {
 				w.abort()
@@ -309,6 +328,10 @@ func (w *c20World) getRoot(_ *trillian.GetLatestSignedLogRootRequest) (*trillian
 	pre := w.prefix()
 	if !w.p.lag {
 		w.dsize = pre
+	} else if w.p.lagN > 0 {
+		if n%(w.p.lagN+1) == w.p.lagN {
+			w.dsize = pre
+		}
 	} else if pre > w.dsize {
 		w.dsize += int64(h>>20) % (pre - w.dsize + 1)
 	}
@@ -322,9 +345,8 @@ func (w *c20World) getRoot(_ *trillian.GetLatestSignedLogRootRequest) (*trillian
 		panic(err)
 	}
 	w.out.T(fmt.Sprintf("root %d", w.dsize), "ok")
-	if w.dsize > 0 && !w.p.noCheck && (w.p.fork || w.p.proofMode != "ok") {
-		w.gateClosed = true
-	}
+	// a pass over a non-empty destination root may submit only after the source has served a consistency proof that verifies
+	w.gateClosed = w.dsize > 0 && !w.p.noCheck
 	return &trillian.GetLatestSignedLogRootResponse{SignedLogRoot: &trillian.SignedLogRoot{LogRoot: b}}, nil
 }
 
@@ -335,8 +357,8 @@ func (w *c20World) wantID(i int64, e *ct.LeafEntry) []byte {
 		s := sha256.Sum256(d[:])
 		return s[:]
 	}
-	cl := w.src.Classes[w.src.Class(i)]
-	s := sha256.Sum256(cl.Cert)
+	cert, _, _ := w.src.CertOf(i)
+	s := sha256.Sum256(cert)
 	return s[:]
 }
 
@@ -373,12 +395,28 @@ func (w *c20World) addLeaves(req *trillian.AddSequencedLeavesRequest) (*trillian
 		}
 		e := ct.LeafEntry{LeafInput: l.LeafValue}
 		ids[j], _ = w.src.IDOf(&e)
-		if w.src.Classes[w.src.Class(l.LeafIndex)].Bad {
+		if _, _, bad := w.src.CertOf(l.LeafIndex); bad {
 			w.out.Count("class:unparsable-submitted")
 		}
 	}
 	if w.gateClosed {
 		w.failf("gate", "AddSequencedLeaves([%d,%d)) although the destination root (size %d) was not proven consistent with the source", start, start+k, w.dsize)
+	}
+	if w.quotaOpen[key] && !w.disturbed {
+		// "retried with back-off": the n-th retry comes Min·Factor^(n-1) (at most Max) plus a jitter below that after the quota reply
+		n := w.quotaN[key]
+		base := time.Second
+		for j := 1; j < n && base < time.Minute; j++ {
+			base *= 3
+		}
+		if base > time.Minute {
+			base = time.Minute
+		}
+		gap := time.Since(w.quotaAt[key])
+		w.out.Count("class:backoff-observed")
+		if gap < base || gap >= 2*base+time.Millisecond {
+			w.failf("backoff", "retry %d of AddSequencedLeaves([%d,%d)) came %v after the quota reply; expected a pause in [%v, %v)", n, start, start+k, gap, base, 2*base)
+		}
 	}
 	delete(w.quotaOpen, key)
 	w.out.T(fmt.Sprintf("add %d %d", start, k), fmt.Sprint(verifkit.FoldDigest(ids)))
@@ -401,23 +439,55 @@ func (w *c20World) addLeaves(req *trillian.AddSequencedLeavesRequest) (*trillian
 		w.quotaRun[key]++
 		w.quotaSeen[key] = true
 		w.quotaOpen[key] = true
+		w.quotaAt[key] = time.Now()
+		w.quotaN[key]++
 		w.out.T(fmt.Sprintf("addret %d %d quota", start, k), "ok")
 		return nil, status.Error(codes.ResourceExhausted, "verif: quota exceeded")
 	}
 	w.quotaRun[key] = 0
+	w.quotaN[key] = 0
+	// the reference destination answers like Trillian's AddSequencedLeaves (storage/mysql/log_storage.go): the RPC succeeds and carries
+	// one status per leaf; a leaf whose identity hash is already stored — under any index, its own included — is refused with
+	// FailedPrecondition "conflicting LeafIdentityHash", a leaf for an index that is taken with FailedPrecondition "conflicting
+	// LeafIndex"; refused leaves are not stored
 	rsp := &trillian.AddSequencedLeavesResponse{}
+	var refusedNow []string // every leaf with a non-OK status (what a client that checks rsp.Results sees)
 	for _, l := range req.Leaves {
-		st := status.New(codes.OK, "").Proto()
-		if old, ok := w.leaves[l.LeafIndex]; ok {
-			if !bytes.Equal(old.LeafValue, l.LeafValue) || !bytes.Equal(old.ExtraData, l.ExtraData) || !bytes.Equal(old.LeafIdentityHash, l.LeafIdentityHash) {
+		st := status.New(codes.OK, "OK").Proto()
+		old, taken := w.leaves[l.LeafIndex]
+		holder, dup := w.byID[string(l.LeafIdentityHash)]
+		switch {
+		case dup:
+			st = status.New(codes.FailedPrecondition, "conflicting LeafIdentityHash").Proto()
+			refusedNow = append(refusedNow, strconv.FormatInt(l.LeafIndex, 10))
+			if holder != l.LeafIndex {
+				// a different index already carries this identity hash: this index stays empty
+				w.refused[l.LeafIndex] = fmt.Sprintf("identity hash already stored under index %d", holder)
+			} else if !bytes.Equal(old.LeafValue, l.LeafValue) || !bytes.Equal(old.ExtraData, l.ExtraData) {
 				w.failf("conflict", "index %d re-submitted with different content", l.LeafIndex)
+			} else if w.ackedNow[l.LeafIndex] && w.p.mode == "run" {
+				// one Controller.Run: its position only moves forward, so no index is submitted again after it was stored, however far
+				// the destination's signed root lags behind what it has stored
+				w.failf("resubmitted", "index %d submitted again within one Run (batch [%d,%d)): the pass did not start where the previous one stopped", l.LeafIndex, start, start+k)
 			}
-			st = status.New(codes.AlreadyExists, "").Proto()
-		} else {
+		case taken:
+			st = status.New(codes.FailedPrecondition, "conflicting LeafIndex").Proto()
+			refusedNow = append(refusedNow, strconv.FormatInt(l.LeafIndex, 10))
+			w.failf("conflict", "index %d re-submitted with different content (other identity hash)", l.LeafIndex)
+		default:
+			w.ackedNow[l.LeafIndex] = true
 			c := *l
 			w.leaves[l.LeafIndex] = &c
+			w.byID[string(l.LeafIdentityHash)] = l.LeafIndex
+			delete(w.refused, l.LeafIndex)
 		}
 		rsp.Results = append(rsp.Results, &trillian.QueuedLogLeaf{Leaf: l, Status: st})
+	}
+	if len(refusedNow) > 0 {
+		w.disturbed = true // a submitter that checks the per-leaf statuses fails this batch and thereby cancels the pass
+		w.out.Count("class:leaf-refused")
+		w.out.T(fmt.Sprintf("addret %d %d partial %s", start, k, strings.Join(refusedNow, ",")), "ok")
+		return rsp, nil
 	}
 	w.out.T(fmt.Sprintf("addret %d %d ok", start, k), "ok")
 	return rsp, nil
@@ -501,18 +571,24 @@ func (f c20Factory) NewElection(ctx context.Context, id string) (election2.Elect
 
 func c20Run(out *verifkit.Out, p *c20Params) {
 	src := verifkit.NewSrcLog(p.seed, false)
-	w := &c20World{out: out, p: p, src: src, size: p.size0, maxSize: p.size0, attempts: map[[2]int64]int{}, errRun: map[[2]int64]int{},
-		leaves: map[int64]*trillian.LogLeaf{}, quotaRun: map[[2]int64]int{}, quotaSeen: map[[2]int64]bool{}, quotaOpen: map[[2]int64]bool{}}
+	src.Unique = p.unique
+	w := &c20World{out: out, p: p, src: src, size: p.size0, maxSize: p.size0, attempts: map[[2]int64]int{}, spin: map[[2]int64]int{}, spinAt: map[[2]int64]time.Time{}, errRun: map[[2]int64]int{},
+		leaves: map[int64]*trillian.LogLeaf{}, byID: map[string]int64{}, refused: map[int64]string{}, quotaRun: map[[2]int64]int{}, quotaSeen: map[[2]int64]bool{}, quotaOpen: map[[2]int64]bool{}, quotaAt: map[[2]int64]time.Time{}, quotaN: map[[2]int64]int{}, ackedNow: map[int64]bool{}}
 	for _, g := range p.growth {
 		if g.size > w.maxSize {
 			w.maxSize = g.size
 		}
 	}
 	w.tree = testonly.New(rfc6962.DefaultHasher)
+	treeN := w.maxSize
+	if p.dest0 > treeN {
+		treeN = p.dest0
+	}
 	for i := int64(0); i < w.maxSize; i++ {
 		e := src.Entry(i)
 		w.tree.AppendData(e.LeafInput)
 	}
+	_ = treeN
 	// what the destination already holds
 	for i := int64(0); i < p.dest0; i++ {
 		e := src.Entry(i)
@@ -523,12 +599,12 @@ func c20Run(out *verifkit.Out, p *c20Params) {
 			l.LeafValue[len(l.LeafValue)-1] ^= 0x55 // another history
 		}
 		w.leaves[i] = l
+		w.byID[string(l.LeafIdentityHash)] = i
 	}
 	w.dsize = p.dest0
 
-	retry := "1"
 	out.T(fmt.Sprintf("sc id=%s mode=%s cont=%s start=%d end=%d batch=%d fetchers=%d submitters=%d nocheck=%s seed=%d dest0=%d fork=%s",
-		p.id, p.mode, verifkit.B(p.cont), p.cfgStart, p.cfgEnd, p.batch, p.fetchers, p.submit, verifkit.B(p.noCheck), src.Seed, p.dest0, verifkit.B(p.fork))+" retry="+retry, "ok")
+		p.id, p.mode, verifkit.B(p.cont), p.cfgStart, p.cfgEnd, p.batch, p.fetchers, p.submit, verifkit.B(p.noCheck), src.Seed, p.dest0, verifkit.B(p.fork)), "ok")
 
 	stopWatch := out.Watchdog(150*time.Second, p.String())
 	defer stopWatch()
@@ -644,13 +720,20 @@ func c20Run(out *verifkit.Out, p *c20Params) {
 	}
 	// the gate: no submission may follow a root that was not proven consistent (checked at every AddSequencedLeaves);
 	// and such a run must not report success
-	if w.gateClosed && runErr == nil && !p.cont {
+	if w.gateClosed && runErr == nil && !p.cont && (p.fork || p.proofMode != "ok") {
 		if w.maxSTH > 0 {
 			out.Fail("gate-success "+key, "Run returned nil although the destination's non-empty root could not be proven consistent with the source STH")
 		}
 	}
+	// a leaf the destination refused is not in the destination: a run that reports success nevertheless has a hole
+	if runErr == nil && len(w.refused) > 0 && !timedOut {
+		for i, why := range w.refused {
+			out.Fail("leaf-refused "+key, fmt.Sprintf("the Controller reported success, but the destination refused the leaf for index %d (%s; per-leaf status FailedPrecondition in an OK reply) and holds nothing there", i, why))
+			break
+		}
+	}
 	// a pass that reported success has mirrored every index of its range
-	if runErr == nil && !timedOut && w.runaway == "" && !cancelled && !w.gateClosed {
+	if runErr == nil && !timedOut && w.runaway == "" && !cancelled && !(w.gateClosed && (p.fork || p.proofMode != "ok")) {
 		lo, hi := int64(0), w.maxSTH
 		if !p.cont {
 			if p.cfgStart >= 0 {
@@ -709,10 +792,15 @@ func c20Gen(r *verifkit.Rand, it int) *c20Params {
 	if r.Bool() {
 		p.idFunc = configpb.IdentityFunction_SHA256_LEAF_INDEX
 	}
+	// with SHA256_CERT_DATA the certificate bytes identify a leaf: most such scenarios use a source without repeated certificates
+	p.unique = p.idFunc == configpb.IdentityFunction_SHA256_CERT_DATA && r.Intn(4) != 0
 	p.errPct = c20Pick(r, 0, 0, 10, 30)
 	p.shortPct = c20Pick(r, 0, 30, 100)
 	p.quotaPct = c20Pick(r, 0, 0, 20, 50)
 	p.lag = r.Intn(3) == 0
+	if p.lag && r.Bool() {
+		p.lagN = c20Pick(r, 1, 2, 5, 1000)
+	}
 	// destination state: empty, partial, full
 	switch r.Intn(4) {
 	case 0:
@@ -722,12 +810,19 @@ func c20Gen(r *verifkit.Rand, it int) *c20Params {
 	default:
 		p.dest0 = r.I64n(p.size0 + 1)
 	}
+	if r.Intn(25) == 0 {
+		p.dest0 = p.size0 + 1 + r.I64n(5) // a destination *ahead* of the source: no proof can exist, every pass must be refused
+	}
 	p.cfgStart = -1
-	switch r.Intn(5) {
+	switch r.Intn(6) {
 	case 0:
 		p.cfgStart = 0
 	case 1:
 		p.cfgStart = r.I64n(p.dest0 + 1)
+	case 2:
+		if r.Intn(3) == 0 {
+			p.cfgStart = p.dest0 + 1 + r.I64n(4) // a configured start above the destination size: a hole by configuration (one-shot mode copies [start, end) as told)
+		}
 	}
 	if r.Intn(5) == 0 && p.size0 > 0 {
 		p.cfgEnd = 1 + r.I64n(p.size0+20)
@@ -770,8 +865,10 @@ func c20Gen(r *verifkit.Rand, it int) *c20Params {
 			}
 			p.stopAfter = 0
 			p.cancelAt = catchUp
-			if p.fork || p.proofMode != "ok" {
-				p.cancelAt = time.Duration(20+r.Intn(40)) * time.Second // every pass is refused: a short look is enough
+			if p.fork || p.proofMode != "ok" || p.lagN == 1000 || (p.idFunc == configpb.IdentityFunction_SHA256_CERT_DATA && !p.unique) {
+				// every pass is refused or fails (a forked / unprovable destination; a root that never moves, so that every restart
+				// overlaps what is stored; repeated certificates under SHA256_CERT_DATA): a short look is enough
+				p.cancelAt = time.Duration(20+r.Intn(40)) * time.Second
 			}
 		}
 	} else if r.Intn(6) == 0 {
@@ -792,16 +889,21 @@ func TestVerifC20(t *testing.T) {
 	fixed := []*c20Params{
 		{id: "f0", mode: "run", proofMode: "ok", cfgStart: -1, size0: 0, batch: 10, fetchers: 1, submit: 1, idFunc: cd, seed: 1},
 		{id: "f1", mode: "run", proofMode: "ok", cfgStart: -1, size0: 57, batch: 10, fetchers: 2, submit: 2, idFunc: cd, seed: 2, shortPct: 30},
+		{id: "u1", unique: true, mode: "run", proofMode: "ok", cfgStart: -1, size0: 57, batch: 10, fetchers: 2, submit: 2, idFunc: cd, seed: 2, shortPct: 30},
 		{id: "f2", mode: "run", proofMode: "ok", cfgStart: -1, size0: 57, dest0: 20, batch: 7, fetchers: 3, submit: 2, idFunc: li, seed: 3, shortPct: 100, errPct: 10},
 		{id: "f3", mode: "run", proofMode: "ok", cfgStart: -1, size0: 57, dest0: 57, batch: 7, fetchers: 1, submit: 1, idFunc: li, seed: 4},
-		{id: "f4", mode: "run", proofMode: "ok", cfgStart: -1, size0: 40, dest0: 10, fork: true, batch: 7, fetchers: 1, submit: 1, idFunc: cd, seed: 5},
-		{id: "f5", mode: "run", proofMode: "bad", cfgStart: -1, size0: 40, dest0: 10, batch: 7, fetchers: 1, submit: 1, idFunc: cd, seed: 6},
-		{id: "f6", mode: "run", proofMode: "bad", cfgStart: -1, size0: 40, dest0: 40, batch: 7, fetchers: 1, submit: 1, idFunc: cd, seed: 7},
-		{id: "q0", mode: "run", proofMode: "ok", cfgStart: -1, size0: 30, batch: 10, fetchers: 1, submit: 1, idFunc: cd, seed: 8, quotaPct: 100},
+		{id: "f4", unique: true, mode: "run", proofMode: "ok", cfgStart: -1, size0: 40, dest0: 10, fork: true, batch: 7, fetchers: 1, submit: 1, idFunc: cd, seed: 5},
+		{id: "f5", unique: true, mode: "run", proofMode: "bad", cfgStart: -1, size0: 40, dest0: 10, batch: 7, fetchers: 1, submit: 1, idFunc: cd, seed: 6},
+		{id: "f6", unique: true, mode: "run", proofMode: "bad", cfgStart: -1, size0: 40, dest0: 40, batch: 7, fetchers: 1, submit: 1, idFunc: cd, seed: 7},
+		{id: "q0", unique: true, mode: "run", proofMode: "ok", cfgStart: -1, size0: 30, batch: 10, fetchers: 1, submit: 1, idFunc: cd, seed: 8, quotaPct: 100},
 		{id: "q1", mode: "run", proofMode: "ok", cfgStart: -1, size0: 64, dest0: 5, batch: 8, fetchers: 2, submit: 3, idFunc: li, seed: 9, quotaPct: 50, shortPct: 30},
-		{id: "f7", mode: "run", proofMode: "ok", cfgStart: -1, size0: 30, batch: 4, fetchers: 2, submit: 2, idFunc: cd, seed: 10, fatalAt: 3},
-		{id: "f8", mode: "run", proofMode: "ok", cfgStart: -1, cont: true, size0: 12, batch: 5, fetchers: 2, submit: 2, idFunc: cd, seed: 11, lag: true,
+		{id: "f7", unique: true, mode: "run", proofMode: "ok", cfgStart: -1, size0: 30, batch: 4, fetchers: 2, submit: 2, idFunc: cd, seed: 10, fatalAt: 3},
+		{id: "f8", unique: true, mode: "run", proofMode: "ok", cfgStart: -1, cont: true, size0: 12, batch: 5, fetchers: 2, submit: 2, idFunc: cd, seed: 11, lag: true,
 			growth: []c20Growth{{40 * time.Second, 30}, {3 * time.Minute, 31}}, stopAfter: 30 * time.Minute},
+		{id: "l0", unique: true, mode: "run", proofMode: "ok", cfgStart: -1, cont: true, size0: 4, batch: 10, fetchers: 1, submit: 1, idFunc: cd, seed: 13, lag: true, lagN: 1000,
+			growth: []c20Growth{{40 * time.Second, 6}, {3 * time.Minute, 9}}, stopAfter: 10 * time.Minute},
+		{id: "l1", mode: "run", proofMode: "ok", cfgStart: -1, cont: true, size0: 30, dest0: 7, batch: 4, fetchers: 2, submit: 2, idFunc: li, seed: 14, lag: true, lagN: 2, shortPct: 30,
+			growth: []c20Growth{{50 * time.Second, 41}, {2 * time.Minute, 42}, {4 * time.Minute, 80}}, stopAfter: 15 * time.Minute},
 		{id: "f9", mode: "master", proofMode: "ok", cfgStart: -1, cont: true, size0: 25, batch: 3, fetchers: 1, submit: 1, idFunc: li, seed: 12, shortPct: 100,
 			growth: []c20Growth{{time.Minute, 60}}, lossAt: []time.Duration{2 * time.Second, 30 * time.Second}, cancelAt: 40 * time.Minute},
 	}
